@@ -162,7 +162,9 @@ def render_layout(top, secs, lay, merchants=True):
             lines.append(ind + body)
     for _ in range(lay['comments']):
         pos = g.next(len(lines) + 1)
-        lines.insert(pos, ['# a comment', '   # indented comment: with colon', '', '   ', '#[NotASection]', '# x = 1'][g.next(6)])
+        # (comments may contain characters str.splitlines() would break a line at: U+2028, NEL, form feed - they are still ONE comment line)
+        lines.insert(pos, ['# a comment', '   # indented comment: with colon', '', '   ', '#[NotASection]', '# x = 1', '# pasted note\u2028category: Misc', '# page\x0c[NotASection]',
+                           '# nel\x85priority: 7', '# sep\u2029filter: False'][g.next(10)])
         touched += 1
     if lay['trail']:
         for i in range(len(lines)):
